@@ -8,6 +8,11 @@ TRUST = ["Eigen dense self-adjoint eigen-solver, LU and MatrixFunctions::exp use
          "held on the executions observed only; nothing is claimed for inputs/schedules that were not run"]
 
 VH = {
+    "C14": dict(drivers=[dict(driver="susc", flavours=P2, timeout=60)],
+                floor=dict(quick=40, thorough=400),
+                rule="cases = generated model (degenerate / near-degenerate classes over-represented) x partition x {real,complex}; per case all (N<=2) or 8-14 operator quadruples (a,b,c,d) incl. S_z-changing ones x "
+                     "n in {0,+-1,2,-3,+-50} vs the bosonic definition integral (stable Lehmann of an independent ED, cross-checked with the two-block exponential for N<=4), of_tau on 6 points incl. 0 and beta vs the trace formula, "
+                     "three ways of subtracting the disconnected part; non-trivial = some component non-zero and dim>=4; distinct by model+partition"),
     "C02": dict(drivers=[dict(driver="g2def", flavours=P2, timeout=240)],
                 floor=dict(quick=20, thorough=200),
                 rule="cases = generated model (N<=4 quick, <=5 thorough; degenerate classes over-represented) x partition x {real,complex}; per case 5-9 index quadruples (equal and distinct indices) x "
@@ -46,6 +51,10 @@ HOOK_COMMITS = []
 NOT_YET = {}
 
 INFO = {
+    "C14": dict(technique="runtime oracle monitor: Susceptibility values (frequency incl. W=0, imaginary time, disconnected part) vs definition integral from an independent full ED",
+                level_text="Every returned value is compared with the definition, with the zero-frequency/degenerate case handled by a stable divided difference and by the exact block-exponential integral; a dropped Lehmann term is allowed to change the result only by O(residue*beta), so terms that are dropped although they carry O(1) weight are reported; held on what was run.",
+                level_note="Trusts Eigen; N <= 4 quick / 6 thorough; reading of the documented thresholds (residue 1e-8, pole window 1e-8) as 'error at most ~1e-8*beta per term' is stated in DESIGN.md.",
+                design_ref="DESIGN.md section 3, C14"),
     "C02": dict(technique="runtime oracle monitor: chi_ijkl(w1,w2;w3) vs the documented triple integral evaluated with Van Loan block-matrix exponentials (no Lehmann sum); table path vs on-demand path",
                 level_text="On-demand values are compared with the definition integral (independent of any spectral representation) on models that maximise degeneracy and at coinciding/bosonic-zero frequencies; both table paths are compared with on-demand evaluation entry by entry; held on what was run.",
                 level_note="Trusts Eigen's matrix exponential (cross-checked against the Lehmann oracle in C01); N <= 4 quick / 5 thorough, |n| small; tolerance gap-aware (1e-9*S unless distinct poles lie within 1e-6).",
